@@ -265,7 +265,11 @@ def rules(tier):
     return [('C18.R1', r1_domain_guards), ('C18.R1b', r1b_recursive_count), ('C18.R2', r2_probability),
             ('C18.R3', r3_writers_complete), ('C18.R4', c11.r3_cp_count), ('C18.R5', c11.r5_length_domain), ('C18.R6', _passes), ('C18.R7', c11.min_length_resolution), ('C18.R8', _prune), ('C18.R9', _cursor), ('C18.R10', r10_keyspace_stateless), ('C18.R11', _window_slices), ('C18.R12', _omen_reader_strip),
             # C18-ca: the guesser reads the n-gram size under a key the trainer never writes (with a fallback)
-            ('C18.R13', _shared_rule('c10', 'r20_omen_config_keys'))]
+            ('C18.R13', _shared_rule('c10', 'r20_omen_config_keys')),
+            # C18-db: memo entry stored under the length instead of the target level
+            ('C18.R14', _shared_rule('c10', 'r10_cache_key_agreement')),
+            # C18-da: pcfg_omen_prob.txt written with format(p, '.12f')
+            ('C18.R15', _shared_rule('plumbing', 'float_text_exact'))]
 
 
 META = {
